@@ -362,8 +362,8 @@ def parse_load(out):
     return res
 
 
-# Every malloc'd byte is pre-filled with a constant: a loader/player that reads memory it never wrote (that is
-# C01/C06's subject, found on corpus modules) then behaves the same in both loads instead of making C08 flaky.
+# Every malloc'd byte is pre-filled with a constant so that both loads of a case see the same heap contents
+# (the harness also pins the per-context random generator before rendering, see pcm_digest).
 ASAN_ENV = {"ASAN_OPTIONS": "detect_leaks=0:abort_on_error=0:allocator_may_return_null=1:"
                             "max_malloc_fill_size=1073741824:malloc_fill_byte=190"}
 
@@ -372,45 +372,6 @@ def run_load_shard(args):
     exe, listfile = args
     rc, out, err = vlib.run_exe(exe, ["load", listfile], timeout=3000, env=ASAN_ENV)
     return rc, out.decode("latin-1"), err
-
-
-def reproduces(exe, c, md5, workdir):
-    """re-run one case alone in a fresh process, twice; True if the oracle fails both times"""
-    lf = os.path.join(workdir, "recheck-%s.txt" % c["id"])
-    open(lf, "w").write("%s %s %s %d\n" % (c["id"], c["apath"], c["ppath"], c["nframes"]))
-    for _ in range(2):
-        rc, out, err = run_load_shard((exe, lf))
-        r = parse_load(out).get(c["id"])
-        if rc == 0 and r and not oracle_one(r[0], md5):
-            return False
-    return True
-
-
-def run_load(ck, exe, cases, workdir, tag, nshards=None):
-    """cases: list of dict(id, apath, ppath, nframes).  Returns (results dict, aborted list)."""
-    nshards = nshards or min(vlib.NCPU, max(1, len(cases) // 4))
-    cases = sorted(cases, key=lambda c: (c["ppath"], c["id"]))
-    shards = [[] for _ in range(nshards)]
-    # keep equal payloads together (the harness caches the memory load of the last payload)
-    per = (len(cases) + nshards - 1) // nshards
-    for i, c in enumerate(cases):
-        shards[min(i // max(per, 1), nshards - 1)].append(c)
-    jobs = []
-    for i, sh in enumerate(shards):
-        if not sh:
-            continue
-        lf = os.path.join(workdir, "list-%s-%d.txt" % (tag, i))
-        with open(lf, "w") as f:
-            for c in sh:
-                f.write("%s %s %s %d\n" % (c["id"], c["apath"], c["ppath"], c["nframes"]))
-        jobs.append((exe, lf))
-    results, aborted = {}, []
-    for (rc, out, err), job in zip(vlib.pmap(run_load_shard, jobs), jobs):
-        results.update(parse_load(out))
-        if rc != 0:
-            last = re.findall(r"^B (\S+)$", out, re.M)
-            aborted.append((job[1], last[-1] if last else None, rc, err))
-    return results, aborted
 
 
 def oracle_one(kv, md5_expected, check_payload=True):
@@ -840,13 +801,6 @@ def run(ck):
                 ck.bump("xz_bigdict_rejected")
             else:
                 ck.bump("xz_bigdict_accepted")
-            continue
-        if fails and set(fails) <= {"pcm", "module_digest"} and not reproduces(exe, c, c["md5"], workdir):
-            # not a property of the archive: the same payload renders differently from run to run (C06)
-            ck.bump("unstable_payload_results_ignored")
-            ck.notes.setdefault("unstable_payloads", [])
-            if os.path.basename(c["ppath"]) not in ck.notes["unstable_payloads"]:
-                ck.notes["unstable_payloads"].append(os.path.basename(c["ppath"]))
             continue
         if fails:
             c["oracle_failed"] = True
